@@ -15,6 +15,7 @@ pub struct Arm {
     pub c04: bool,
     pub c06: bool,
     pub c13: bool,
+    pub c19: bool,
 }
 
 #[derive(Clone)]
@@ -34,6 +35,9 @@ pub struct HubCore {
     pub seeds: Vec<&'static str>,
     pub slash_fracs: Vec<(u128, u128)>,
     pub big: bool,
+    pub keeper_rate: &'static str,
+    pub price: &'static str,
+    pub reward_amounts: Vec<(&'static str, &'static str, u128)>,
 }
 
 impl HubCore {
@@ -54,10 +58,13 @@ impl HubCore {
             seeds: vec!["funded", "slashed", "inflight"],
             slash_fracs: vec![(1, 10)],
             big: false,
+            keeper_rate: "0.05",
+            price: "1",
+            reward_amounts: vec![("val1", USEI, 1000), ("val2", KUSD, 400)],
         }
     }
     pub fn cfg(&self) -> Cfg {
-        Cfg { peg_fee: self.peg_fee, threshold: self.threshold, ..Cfg::default() }
+        Cfg { peg_fee: self.peg_fee, threshold: self.threshold, keeper_rate: self.keeper_rate, price: self.price, ..Cfg::default() }
     }
 }
 
@@ -213,8 +220,9 @@ impl Scenario for HubCore {
         v.push(check_slashing(CAROL));
         if self.with_rewards {
             v.push(update_index(UPDATER));
-            v.push(accrue("val1", USEI, 1000));
-            v.push(accrue("val2", KUSD, 400));
+            for (val, den, amt) in &self.reward_amounts {
+                v.push(accrue(val, den, *amt));
+            }
         }
         if self.with_registry {
             for val in ["val1", "val3"] {
@@ -254,6 +262,9 @@ impl Scenario for HubCore {
         }
         if self.arm.c13 {
             c13_step(pre, po, a, out, post, qo, cx);
+        }
+        if self.arm.c19 {
+            c19_step(pre, po, a, out, post, qo, cx);
         }
         g2
     }
@@ -748,5 +759,128 @@ fn c13_step(pre: &Chain, po: &HubObs, a: &Action, out: &Outcome, post: &Chain, q
     let gap_post = qo.delegated as i128 - qo.books() as i128;
     if gap_pre != gap_post {
         cx.viol("C13.books_gap", "delegated minus booked stake changed by a validator removal", format!("{}: {} -> {}", a.label, gap_pre, gap_post));
+    }
+}
+
+// =============================================================================================
+// C19 — a global index update delivers all staking rewards to the right parties
+
+fn zero_send_sig(e: &str) -> Option<String> {
+    let i = e.find("zero amount of ")?;
+    let rest = &e[i + "zero amount of ".len()..];
+    let mut it = rest.split_whitespace();
+    let denom = it.next()?;
+    let _ = it.next()?;
+    let from = it.next()?;
+    let _ = it.next()?;
+    let to = it.next()?;
+    Some(format!("zero-coin bank send {}->{} denom={}", from, to, denom))
+}
+
+fn c19_step(pre: &Chain, po: &HubObs, a: &Action, out: &Outcome, post: &Chain, qo: &HubObs, cx: &mut Cx) {
+    let direct = a.is(HUB, "update_global_index") && a.sender() == UPDATER;
+    let via_registry = a.is(REG, "remove_validator") && a.sender() == OWNER;
+    if !direct && !via_registry {
+        return;
+    }
+    if po.delegated == 0 || po.books() == 0 {
+        cx.count("c19_skipped_nothing_bonded");
+        return;
+    }
+    if !out.ok() {
+        if via_registry && !out.err().contains("dispatcher") && !out.err().contains("bank:") {
+            return; // the removal itself was refused (last validator, ...): not an index update
+        }
+        cx.trigger("c19_update_failed");
+        let e = out.err();
+        let sig = zero_send_sig(e).unwrap_or_else(|| format!("UpdateGlobalIndex fails: {}", crate::unbondlc::classify_err(e)));
+        cx.viol("C19.executes", sig, format!("{}: pending {:?}: {}", a.label, pre.pending_total(HUB), e));
+        return;
+    }
+    let fx = out.fx();
+    if !fx_has_hub_exec(fx, "update_global_index") {
+        return; // removal without an index update (nothing delegated on the validator, or redelegation blocked)
+    }
+    cx.trigger("c19_update_checked");
+    cx.validated();
+    let pend = pre.pending_total(HUB);
+    if pend.values().any(|x| *x > 0) {
+        cx.count("c19_update_with_pending_rewards");
+    }
+    if via_registry {
+        cx.count("c19_update_via_registry");
+    }
+    // rewards withdrawn from every validator the hub delegates to at that moment
+    let vals: Vec<String> = if via_registry {
+        post.deleg.keys().filter(|(d, _)| d == HUB).map(|(_, v)| v.clone()).collect()
+    } else {
+        pre.deleg.keys().filter(|(d, _)| d == HUB).map(|(_, v)| v.clone()).collect()
+    };
+    for v in &vals {
+        let got = fx.iter().any(|e| matches!(e, Fx::WithdrawReward { val, delegator, .. } if val == v && delegator == HUB));
+        if !got && !via_registry {
+            cx.viol("C19.withdraw_all", "no reward withdrawal for a validator the hub delegates to", format!("{}: {}", a.label, v));
+        }
+    }
+    if post.pending_total(HUB).values().any(|x| *x > 0) {
+        cx.viol("C19.withdraw_all", "staking rewards left pending after the update", format!("{}: {:?}", a.label, post.pending_total(HUB)));
+    }
+    if post.bal(DISP, USEI) != 0 || post.bal(DISP, KUSD) != 0 {
+        cx.viol("C19.nothing_left", "reward coins left behind in the dispatcher", format!("{}: {} usei {} kusd", a.label, post.bal(DISP, USEI), post.bal(DISP, KUSD)));
+    }
+    // untouched: liquid balance, token balances and supplies, unbonders' claims
+    if po.hub_usei != qo.hub_usei || post.bal(HUB, KUSD) != pre.bal(HUB, KUSD) {
+        cx.viol("C19.untouched", "hub liquid balance changed by an index update", format!("{}: {} -> {}", a.label, po.hub_usei, qo.hub_usei));
+    }
+    if po.bsei_bal != qo.bsei_bal || po.stsei_bal != qo.stsei_bal || po.bsei_supply != qo.bsei_supply || po.stsei_supply != qo.stsei_supply {
+        cx.viol("C19.untouched", "token balances or supplies changed by an index update", a.label.clone());
+    }
+    if po.requests != qo.requests || po.history != qo.history || po.batch != qo.batch {
+        cx.viol("C19.untouched", "unbond claims or batches changed by an index update", a.label.clone());
+    }
+    // split: keeper fee, bSei share to the reward contract, stSei share re-bonded
+    let rate: cosmwasm_std::Decimal = {
+        let cfg: basset::dispatcher::ConfigResponse = pre.query(DISP, &basset_sei_rewards_dispatcher::msg::QueryMsg::Config {}).expect("dispatcher config");
+        cfg.krp_keeper_rate
+    };
+    let ku = post.bal(KEEPER, USEI) - pre.bal(KEEPER, USEI);
+    let kk = post.bal(KEEPER, KUSD) - pre.bal(KEEPER, KUSD);
+    let to_reward = post.bal(REWARD, KUSD) - pre.bal(REWARD, KUSD);
+    let rebonded: u128 = fx
+        .iter()
+        .map(|e| match e {
+            Fx::Exec { contract, msg, funds, .. } if contract == HUB && msg.get("bond_rewards").is_some() => funds.iter().filter(|(d, _)| d == USEI).map(|(_, a)| *a).sum(),
+            _ => 0,
+        })
+        .sum();
+    if ku != mul_dec(ku + rebonded, rate) || kk != mul_dec(kk + to_reward, rate) {
+        cx.viol("C19.keeper_fee", "keeper did not receive floor(share x rate)", format!("{}: keeper {} usei {} kusd, rebonded {}, to reward {}, rate {}", a.label, ku, kk, rebonded, to_reward, rate));
+    }
+    if (qo.delegated as i128 - po.delegated as i128) != rebonded as i128 {
+        cx.viol("C19.rebond", "delegated stake did not grow by exactly the re-bonded amount", format!("{}: {} -> {} rebonded {}", a.label, po.delegated, qo.delegated, rebonded));
+    }
+    // stSei rate rises by exactly rebonded / (supply + pending); bSei rate untouched
+    let st_pre = po.state.total_bond_stsei_amount.u128();
+    let exp_st = expected_rate(st_pre + rebonded, po.st_claims());
+    if qo.state.total_bond_stsei_amount.u128() != st_pre + rebonded || qo.state.stsei_exchange_rate != exp_st {
+        cx.viol("C19.stsei_rate", "stSei pool/rate after the update != (pool + re-bonded) / claims", format!("{}: pool {} -> {} rebonded {} rate {} expected {}", a.label, st_pre, qo.state.total_bond_stsei_amount, rebonded, qo.state.stsei_exchange_rate, exp_st));
+    }
+    if qo.state.total_bond_bsei_amount != po.state.total_bond_bsei_amount || qo.state.bsei_exchange_rate != po.state.bsei_exchange_rate {
+        cx.viol("C19.bsei_rate", "bSei pool or rate changed by an index update", format!("{}: {} {} -> {} {}", a.label, po.state.total_bond_bsei_amount, po.state.bsei_exchange_rate, qo.state.total_bond_bsei_amount, qo.state.bsei_exchange_rate));
+    }
+    // bSei holders' claimable rewards grow by what reached the reward contract (within dust)
+    let r0 = crate::reward::RObs::new(pre);
+    let r1 = crate::reward::RObs::new(post);
+    if r0.supply > 0 {
+        let grow = r1.total_accrued_fp() - r0.total_accrued_fp();
+        let undistributed = cosmwasm_std::Uint256::from(r0.bank - r0.state.prev_reward_balance.u128());
+        let hi = (cosmwasm_std::Uint256::from(to_reward) + undistributed) * cosmwasm_std::Uint256::from(ONE);
+        let dust = cosmwasm_std::Uint256::from(r0.supply);
+        if to_reward > 0 {
+            cx.count("c19_rewards_reached_bsei_holders");
+        }
+        if grow > hi || grow + dust < hi {
+            cx.viol("C19.holders_accrue", "bSei holders' total claimable reward did not grow by the delivered amount", format!("{}: grew {} delivered {} (1e-18 units) dust {}", a.label, grow, hi, dust));
+        }
     }
 }
